@@ -568,8 +568,6 @@ class C06(Prop):
                 return f'[{a}] stages after preprocess: ' + d
             nested = a in NESTED_ARRS
             mt = canon_model_answer(m['tree'])
-            if nested and i['tree'].get('err') == 'premerge' and mt.get('err') in ('merge', 'value', 'premerge'):
-                continue        # inner error class wrapped into PremergeError by the code
             d = first_diff(i['tree'], mt)
             if d:
                 return f'[{a}] merged tree: ' + d
